@@ -12,6 +12,9 @@ from . import pools, registry, seams, tasks
 from .seams import CTL, HarnessError
 
 
+DEFAULT_TIMEOUT = 150      # seconds; the slowest legitimate execution of the alphabets takes well under 10 s
+
+
 class Exec:
     __slots__ = ('scn', 'dev', 'trace', 'result', 'exc', 'snaps', 'steps', 'obj', 'cfg_before', 'cfg_after',
                  'cfg_same_object', 'task_before', 'task_after', 'escapes', 'taken', 'task', 'opt', 'pool_events',
@@ -139,14 +142,18 @@ def run_execution(scn, dev=None, expect=None, opt=None, task=None, keep_args=Fal
     CTL.reset(dev, scn.get('seed', 0), menu3=scn.get('menu3', False), expect=expect)
     mode, workers = scn.get('mode'), scn.get('workers')
     out = io.StringIO()
-    tmo = scn.get('timeout')
+    # every execution has a horizon: code that stops terminating must become a verdict, not a hung check
+    tmo = scn.get('timeout', DEFAULT_TIMEOUT)
+    import threading
+    if tmo and threading.current_thread() is not threading.main_thread():
+        tmo = None
     if tmo:
         import signal
 
         def _alarm(*a):
             raise TimeoutError(f"execution cut after {tmo} s")
         old_alarm = signal.signal(signal.SIGALRM, _alarm)
-        signal.alarm(int(tmo))
+        signal.setitimer(signal.ITIMER_REAL, float(tmo), 5.0)
     try:
         with Instrument(type(opt), ex), contextlib.redirect_stdout(out), np.errstate(all='ignore'), \
                 _no_warnings():
@@ -164,7 +171,7 @@ def run_execution(scn, dev=None, expect=None, opt=None, task=None, keep_args=Fal
                 ex.extra['exc_is_valueerror'] = isinstance(e, ValueError)
     finally:
         if tmo:
-            signal.alarm(0)
+            signal.setitimer(signal.ITIMER_REAL, 0)
             signal.signal(signal.SIGALRM, old_alarm)
         CTL.active = False
         pools.uninstall()
